@@ -1,3 +1,129 @@
+/-
+  Props/C04.lean — C04: every recorded change can be undone exactly and replayed exactly.
+  Helper lemmas: Proofs/StepToks.lean (token semantics), Proofs/Undo.lean.
+-/
 import PM.Step
+import PM.Transform
+import Proofs.StepToks
+import Proofs.Undo
 namespace PM.C04
+open PM
+
+/-- replaying a list of steps from a document: the documents before each step and the final one -/
+def replay (S : Schema) : Node → List Step → Option (List Node × Node)
+  | d, [] => some ([], d)
+  | d, st :: rest =>
+    match S.apply st d with
+    | .ok d' => (replay S d' rest).map (fun (ds, fin) => (d :: ds, fin))
+    | .error _ => none
+
+/-- **history bookkeeping**: for any finite sequence of attempted steps, the recorded steps, documents
+    and maps stay aligned one-to-one (also after rejected steps), every recorded map is the recorded
+    step's map, and re-applying the recorded steps to the starting document reproduces the recorded
+    intermediate documents and the final document. -/
+theorem history_inv (S : Schema) (doc : Node) (sts : List Step) :
+    let tr := (Tr.init doc).run S sts
+    tr.steps.length = tr.docs.length ∧ tr.maps.length = tr.steps.length ∧
+    tr.maps = tr.steps.map Step.getMap ∧
+    tr.before = doc ∧
+    replay S doc tr.steps = some (tr.docs, tr.doc) := by
+  sorry
+
+/-- a rejected step leaves the whole transform unchanged -/
+theorem rejected_unchanged (S : Schema) (tr : Tr) (st : Step) (e : Err) (h : S.apply st tr.doc = .error e) :
+    tr.maybeStep S st = tr := by
+  sorry
+
+/-- **an inverted replace step's map is the inverse of the original's** (position by position) -/
+theorem invert_map_replace (S : Schema) (doc : Node) (f t : Nat) (sl : Slice) (b : Bool) (inv : Step)
+    (hft : f ≤ t) (ht : t ≤ fsize doc.kids) (hs : 0 ≤ sl.size)
+    (hi : S.invert (.replace f t sl b) doc = .ok inv) (p a : Int) :
+    inv.getMap.map p a = (Step.replace f t sl b).getMap.invert.map p a := by
+  sorry
+
+theorem invert_map_replaceAround (S : Schema) (doc : Node) (f t gf gt : Nat) (sl : Slice) (ins : Nat)
+    (b : Bool) (inv : Step) (hg : f ≤ gf ∧ gf ≤ gt ∧ gt ≤ t) (ht : t ≤ fsize doc.kids)
+    (hins : (ins : Int) ≤ sl.size)
+    (hi : S.invert (.replaceAround f t gf gt sl ins b) doc = .ok inv) (p a : Int) :
+    inv.getMap.map p a = (Step.replaceAround f t gf gt sl ins b).getMap.invert.map p a := by
+  sorry
+
+/-- **exact undo of a replace step** (whenever the inverse applies — that it does is decided by the
+    correspondence run): the restored document is *equal* to the original -/
+theorem replace_undo_partial (S : Schema) (doc doc' doc'' : Node) (f t : Nat) (sl : Slice) (b : Bool)
+    (inv : Step) (hn : fnorm doc.kids = true) (hsn : fnorm sl.content = true)
+    (h1 : S.apply (.replace f t sl b) doc = .ok doc')
+    (hi : S.invert (.replace f t sl b) doc = .ok inv)
+    (h2 : S.apply inv doc' = .ok doc'') : doc'' = doc := by
+  sorry
+
+/-- **exact undo of a replace-around step** (same proviso) -/
+theorem replaceAround_undo_partial (S : Schema) (doc doc' doc'' : Node) (f t gf gt : Nat) (sl : Slice)
+    (ins : Nat) (b : Bool) (inv : Step) (hn : fnorm doc.kids = true) (hsn : fnorm sl.content = true)
+    (hwf : sl.wf = true) (hins : (ins : Int) ≤ sl.size) (hg : f ≤ gf ∧ gf ≤ gt ∧ gt ≤ t)
+    (h1 : S.apply (.replaceAround f t gf gt sl ins b) doc = .ok doc')
+    (hi : S.invert (.replaceAround f t gf gt sl ins b) doc = .ok inv)
+    (h2 : S.apply inv doc' = .ok doc'') : doc'' = doc := by
+  sorry
+
+mutual
+/-- every node carries its attributes the way the library builds them (`compute_attrs` would return
+    them unchanged) -/
+def attrsOk (S : Schema) : Node → Bool
+  | .text .. => true
+  | .leaf t a _ => (match computeAttrs (S.nodeType t).attrs a with
+      | .ok a' => a' == a
+      | .error _ => false)
+  | .elem t a _ kids => (match computeAttrs (S.nodeType t).attrs a with
+      | .ok a' => a' == a
+      | .error _ => false) && attrsOkKids S kids
+def attrsOkKids (S : Schema) : List Node → Bool
+  | [] => true
+  | n :: ns => attrsOk S n && attrsOkKids S ns
+end
+
+/-- **exact undo of an attribute step naming an attribute the node declares** (same proviso as for
+    replace steps: whenever the inverse applies) -/
+theorem attr_undo_partial (S : Schema) (doc doc' doc'' : Node) (pos : Nat) (name value : String) (inv : Step)
+    (hn : fnorm doc.kids = true) (hv : S.checkNode doc = true) (ha : attrsOk S doc = true)
+    (h1 : S.apply (.attr pos name value) doc = .ok doc')
+    (hi : S.invert (.attr pos name value) doc = .ok inv)
+    (h2 : S.apply inv doc' = .ok doc'') : doc'' = doc := by
+  sorry
+
+/-- **exact undo of node-mark steps** that displace at most one mark (same proviso) -/
+theorem nodeMark_undo_partial (S : Schema) (doc doc' doc'' : Node) (pos : Nat) (m : Mark) (inv : Step) (add : Bool)
+    (hn : fnorm doc.kids = true) (hv : S.checkNode doc = true) (ha : attrsOk S doc = true)
+    (h1 : S.apply (if add then .addNodeMark pos m else .removeNodeMark pos m) doc = .ok doc')
+    (hi : S.invert (if add then .addNodeMark pos m else .removeNodeMark pos m) doc = .ok inv)
+    (hdis : ∀ n, doc.nodeAt pos = .ok (some n) → add = true → n.marks.length ≤ (m.addToSet S n.marks).length)
+    (h2 : S.apply inv doc' = .ok doc'') : doc'' = doc := by
+  sorry
+
+/-- **exact undo of a doc-attribute step** for a declared attribute holding a non-null value or a
+    null default -/
+theorem docAttr_undo (S : Schema) (t : TypeId) (a : Attrs) (m : Marks) (kids : List Node)
+    (name value : String) (doc' : Node) (inv : Step)
+    (ha : computeAttrs (S.nodeType t).attrs a = .ok a) (hm : setFrom m = m)
+    (h1 : S.apply (.docAttr name value) (.elem t a m kids) = .ok doc')
+    (hi : S.invert (.docAttr name value) (.elem t a m kids) = .ok inv)
+    (hdecl : name ∈ (S.nodeType t).attrs.map (·.name)) :
+    ∃ doc'', S.apply inv doc' = .ok doc'' ∧ doc''.kids = kids ∧ doc''.marks = m := by
+  sorry
+
+/-- **exact undo of a remove-node-mark step** and of an **add-node-mark step that displaces at most
+    one mark** (the mark set afterwards is the one before) -/
+theorem nodeMark_undo_marks (S : Schema) (ms : Marks) (m : Mark) (hc : canonicalMarks S ms = true) :
+    (m.isInSet ms = true → m.addToSet S (m.removeFromSet ms) = ms) ∧
+    (m.isInSet ms = false → (m.addToSet S ms).length = ms.length + 1 → m.removeFromSet (m.addToSet S ms) = ms) := by
+  sorry
+
+/-- the guard "at most one displaced mark" is necessary: a mark excluding two present marks cannot
+    be undone by a single node-mark step (also upstream) -/
+theorem nodeMark_undo_needs_guard :
+    ∃ (S : Schema) (ms : Marks) (m : Mark), canonicalMarks S ms = true ∧
+      (m.addToSet S ms).length < ms.length ∧
+      ∀ x : Mark, x.addToSet S (m.addToSet S ms) ≠ ms ∧ x.removeFromSet (m.addToSet S ms) ≠ ms := by
+  sorry
+
 end PM.C04
